@@ -201,6 +201,10 @@ def run(tier, seed):
                                    else ("CREATE TABLE t (id %s NOT NULL, other %s NOT NULL);\nALTER TABLE t ALTER COLUMN id DROP NOT NULL;\nALTER TABLE t ALTER COLUMN other DROP NOT NULL;\n" % (sp, sp)),
                 "drop-around": "CREATE TABLE t (j1 int, id %s%s, j2 text NOT NULL, other %s%s, j3 int);\nALTER TABLE t DROP COLUMN j1, DROP COLUMN j2, DROP COLUMN j3;\n" % (sp, n_, sp, n_),
                 "rename": "CREATE TABLE t0 (idx %s%s, other %s%s);\nALTER TABLE t0 RENAME COLUMN idx TO id;\nALTER TABLE t0 RENAME TO t;\n" % (sp, n_, sp, n_),
+                "pk-routes": ("CREATE TABLE t (CONSTRAINT t_pkey PRIMARY KEY (id, other), id %s, other %s);\n" % (sp, sp)) if nn
+                             else ("CREATE TABLE t (PRIMARY KEY (k), id %s, k int, other %s);\nALTER TABLE t DROP COLUMN k;\n" % (sp, sp)),
+                "add-column-pk": ("CREATE TABLE t (id %s NOT NULL);\nALTER TABLE t ADD COLUMN other %s PRIMARY KEY;\n" % (sp, sp)) if nn
+                                 else ("CREATE TABLE t (k int);\nALTER TABLE t ADD COLUMN id %s, ADD COLUMN other %s;\nALTER TABLE t DROP COLUMN k;\n" % (sp, sp)),
                 "drop-re-add": "CREATE TABLE t (id %s%s, other int);\nALTER TABLE t DROP COLUMN other, ADD COLUMN other %s%s;\n" % (sp, n_, sp, n_),
             }
             q = "-- name: Q :many\nSELECT id, other FROM t WHERE id = $1 AND other = $2;\n"
